@@ -1032,16 +1032,23 @@ def run(ctx):
 
     # ---- non-ASCII strings across the str boundaries (character count vs UTF-8 byte count) -------
     wides = wide_strings(rng, not ctx.thorough())
+    nbig = 0
     for label, st in wides:
         u = st.encode('utf-8')
         isbig = len(u) > 1000
         ctx.histogram('wide_str', label)
         ctx.histogram('wide_str_sides', 'chars<=%s<bytes' % next((b for b in (31, 255, 65535) if len(st) <= b < len(u)), 'none'))
         out = add_value(('str', u), 'wide_str', cuts=not isbig, big=isbig)
+        # for the 64 KiB strings the quick tier runs the costly extras (cut at the last byte, another legal
+        # header) on every third one; the value itself (encode, decode, spec read-back, direct round trip and
+        # header cuts) always runs
+        nbig += isbig
+        extras = (not isbig) or ctx.thorough() or nbig % 3 == 0
         if out is not None and isbig:
-            for p in sorted(set(list(range(0, 7)) + [len(out) - 1])):
+            for p in sorted(set(list(range(0, 7)) + ([len(out) - 1] if extras else []))):
                 add_decode_big(ctx, real, cases, out[:p])
-        add_twin_big(ctx, real, cases, ('str', u), rng, um, note_direct, isbig)
+        if extras:
+            add_twin_big(ctx, real, cases, ('str', u), rng, um, note_direct, isbig)
     # the same strings as map keys, map values and array members (the stream must stay in step after them)
     smalls = [st for _l, st in wides if len(st.encode('utf-8')) < 300]
     for i in range(0, len(smalls), 3):
@@ -1181,7 +1188,7 @@ def run(ctx):
     ctx.log('%d small + %d large cases' % (len(cases.small), len(cases.big)))
     terms = [t for t, _ in cases.small]
     infos = [i for _, i in cases.small]
-    bad = ctx.run_cases(IMPORTS, PRELUDE, 'check_case', terms, case_type='case', shard=ctx.pick(600, 1500), timeout=800)
+    bad = ctx.run_cases(IMPORTS, PRELUDE, 'check_case', terms, case_type='case', shard=ctx.pick(1000, 1500), timeout=800)
     bad_infos = [(terms[i], infos[i]) for i in bad]
     # large cases: a few per shard
     if cases.big:
